@@ -50,3 +50,42 @@ Proof.
   intros. split; [|apply bytesint_parse_short; assumption].
   rewrite bitwise_sized_parse, iread_short by assumption. reflexivity.
 Qed.
+
+(* ---- BitsInteger(8n, signed) <--> Bytewise(BytesInteger(n, signed)) inside a bit region ----
+   Bytewise over a sized subcon is Transformed(subcon, bits2bytes, 8n, bytes2bits, 8n): it reads 8n bits, packs them into n bytes and hands
+   those to the byte-level integer. For every width, EITHER signedness, any position in the bit stream: same value, same final position. *)
+Definition bytewise_sized (c : con) (n : Z) : con := CTransformed c BFbits2bytes (Some (8 * n)%Z) BFbytes2bits (Some (8 * n)%Z).
+
+Lemma bitsint_parse_at n s d rest pre base sk cx p :
+  (0 < n)%Z -> Z.of_nat (length d) = n ->
+  parse (CBitsInt (kint n) s false) cx p (at_pos pre (d ++ rest) base sk) =
+  match bits2integer d s with Some z => Ok (VInt z, at_pos (pre ++ d) rest base sk) | None => Err EInteger (Some p) end.
+Proof.
+  intros Hn Hl. cbn [parse]. rewrite eval_int_kint. cbn [bind].
+  destruct (n <=? 0)%Z eqn:E; [lia|]. rewrite <- Hl, iread_at. cbn [bind]. destruct (bits2integer d s); reflexivity.
+Qed.
+
+Lemma bytewise_sized_parse c n cx p s :
+  parse (bytewise_sized c n) cx p s =
+  (let* (d, s1) := iread s (8 * n) p in let* d' := apply_bfun BFbits2bytes d in let* (v, _) := parse c cx p (istream_of d') in Ok (v, s1)).
+Proof. unfold bytewise_sized. cbn [parse]. reflexivity. Qed.
+
+Theorem law_bitsinteger_bytewise_parse : forall n s d rest pre base sk cx p,
+  (0 < n)%Z -> Z.of_nat (length d) = n ->
+  match parse (bytewise_sized (CBytesInt (kint n) s false) n) cx p (at_pos pre (bytes2bits d ++ rest) base sk),
+        parse (CBitsInt (kint (8 * n)) s false) cx p (at_pos pre (bytes2bits d ++ rest) base sk) with
+  | Ok (v1, s1), Ok (v2, s2) => v1 = v2 /\ s1 = s2
+  | _, _ => False
+  end.
+Proof.
+  intros n s d rest pre base sk cx p Hn Hl.
+  assert (Hd : d <> []) by (destruct d; [cbn in Hl; lia|discriminate]).
+  assert (Hb : Z.of_nat (length (bytes2bits d)) = (8 * n)%Z) by (rewrite bytes2bits_length; lia).
+  rewrite (bitsint_parse_at (8 * n)) by (lia || exact Hb).
+  rewrite bits2integer_bytes2bits by exact Hd. rewrite bytes2integer_ne by exact Hd.
+  rewrite bytewise_sized_parse. rewrite <- Hb, iread_at. cbn [bind apply_bfun].
+  rewrite bits2bytes_bytes2bits. cbn [bind].
+  pose proof (bytesint_parse n s false d [] [] 0%N true cx p Hn Hl) as R. rewrite app_nil_r in R.
+  unfold istream_of. unfold at_pos in R at 1. cbn [app nlen length N.of_nat] in R. rewrite R. cbn [bind endian_of].
+  split; reflexivity.
+Qed.
